@@ -95,6 +95,17 @@ def run(ctx):
                           "expect": expect_str(inst.replace(tzinfo=None)), "stratum": "epoch-fold/to-utc"})
             cases.append({"s": str(secs), "langs": ["en"], "settings": {"RELATIVE_BASE": bases[0], "TIMEZONE": tzname},
                           "expect": expect_str(loc.replace(tzinfo=None)), "stratum": "epoch-fold/naive"})
+    # every name of the tz database as TIMEZONE (not only the common ones): names that contain one of the library's abbreviations (Etc/GMT+5,
+    # Australia/ACT, EST5EDT, CET …) must still mean the tz database's zone; one instant in January and one in July
+    tricky = ["CET", "EET", "MET", "WET", "EST5EDT", "CST6CDT", "MST7MDT", "PST8PDT", "Etc/GMT+5", "Etc/GMT-3", "Etc/GMT-14", "Etc/GMT+12", "Australia/ACT", "Australia/West",
+              "Brazil/East", "Brazil/West", "US/East-Indiana", "Etc/UTC", "GB", "NZ", "ROK", "Navajo"]
+    names = sorted(pytz.all_timezones) if tier != "quick" else tricky + R.sample(sorted(pytz.all_timezones), 40)
+    for tzname in names:
+        for inst in (dt.datetime(2020, 1, 15, 12, 0, tzinfo=dt.timezone.utc), dt.datetime(2008, 7, 2, 12, 0, tzinfo=dt.timezone.utc)):
+            secs = int(inst.timestamp())
+            loc = inst.astimezone(pytz.timezone(tzname))
+            cases.append({"s": str(secs) + "263", "langs": ["en"], "settings": {"RELATIVE_BASE": bases[0], "TIMEZONE": tzname},
+                          "expect": expect_str(loc.replace(tzinfo=None, microsecond=263000)), "stratum": "epoch/every-tz-database-name"})
     res = decide(ctx, cases, model_share=1.0 if tier == "quick" else 0.25)
     res["assumptions"] = ["IANA zones for the epoch form: the model is parametric (cases reported as rejected 'iana'); pytz is the oracle",
                           "the English string→token glue (sanitize, translate, tokenizer classification) is modelled and validated by the model tie on every sampled date"]
